@@ -351,6 +351,11 @@ func (s *Sim) execOp(i int) {
 	if st.gate != nil {
 		<-st.gate
 	}
+	if s.race && op.SpinUs > 0 {
+		// engine R: this caller arrives a few microseconds of real time after
+		// the others of its instant (fake time does not move meanwhile)
+		spinRealMicros(op.SpinUs)
+	}
 	inv := Rec{Kind: "inv", Op: i + 1, S: op.Kind}
 	if pre {
 		inv.B = true
@@ -376,7 +381,7 @@ func (s *Sim) execOp(i int) {
 			s.setConnecting(base, true)
 		}
 		var sp bool
-		sp, err = cli.Connect(ctx, cfg.ClientID, s.connectOpts()...)
+		sp, err = cli.Connect(ctx, cfg.ClientID+op.Token, s.connectOpts()...) // Token: client id suffix (several independent clients in one run)
 		if base != nil {
 			s.setConnecting(base, false)
 		}
@@ -622,6 +627,29 @@ func (s *Sim) sampleAll() {
 // judgeSnapshot records the state the liveness oracles look at.
 func (s *Sim) judgeSnapshot() {
 	cfg := &s.sc.Cfg
+	if s.race && s.sc.Prop == "C16" {
+		// what Err() and Done() say in the end, per client
+		s.mu.Lock()
+		bases := append([]*mqtt.BaseClient{}, s.bases...)
+		s.mu.Unlock()
+		for k, b := range bases {
+			if b == nil {
+				continue
+			}
+			r := Rec{Kind: "finalerr", Conn: k + 1}
+			if e := b.Err(); e != nil {
+				r.Err, r.Cls = e.Error(), classify(e)
+			}
+			if ch := b.Done(); ch != nil {
+				select {
+				case <-ch:
+					r.B = true
+				default:
+				}
+			}
+			s.log(r)
+		}
+	}
 	s.log(Rec{Kind: "subtable", S: s.broker.subTable(cfg.ClientID)})
 	if s.retry != nil {
 		st := s.retry.Stats()
